@@ -211,6 +211,19 @@ func (H) Execute(x *common.Exec, s any) {
 	// exports carry the refresh index through their position: re-attribute by order
 	// (every export was appended during exactly one UpdateReset, in order).
 	x.NonTrivial = len(samples) > 2 && len(refreshAt) > 2
+	for _, e := range sc.Refresh {
+		if e.K == "adv" {
+			switch {
+			case e.N >= 2*sc.PeriodNs:
+				x.Fault("refresh-stalled-for-whole-periods")
+			case e.N != sc.PeriodNs:
+				x.Fault("refresh-tick-jitter")
+			}
+		}
+	}
+	if sc.Split {
+		x.Fault("compute-concurrent-with-refresh")
+	}
 	hh := fnv.New64a()
 	fmt.Fprint(hh, len(samples), len(exports))
 	x.StateHash = hh.Sum64()
